@@ -57,6 +57,18 @@ def render(pairs, rng, use=True):
     # an unbound private variable in between must not disturb anything
     if rng.random() < 0.3:
         lines.insert(rng.randrange(len(lines) + 1), "var<private> scratch: f32;")
+    if rng.random() < 0.25:
+        # the variables are used, by entry points of different stages (a slot shared by resources of different entry points
+        # is still one slot of one bind group layout: the contract is about declarations)
+        readable = []
+        for l in lines:
+            if l.startswith("@group") and "var<uniform>" in l:
+                nm = l.split("var<uniform> ")[1].split(":")[0]
+                readable.append(nm + (".x" if "vec4<f32>" in l else "[0].x"))
+        if len(readable) >= 2:
+            lines.append("@vertex fn vs_main() -> @builtin(position) vec4<f32> { return vec4<f32>(%s); }" % readable[0])
+            lines.append("@fragment fn fs_main() -> @location(0) vec4<f32> { return vec4<f32>(%s); }" % readable[-1])
+            return "\n".join(lines) + "\n"
     stage = rng.choice(["@compute @workgroup_size(1)", "@fragment", "@vertex", "none"])
     if stage == "none":
         pass        # a module without any entry point: the numbering contract holds all the same
